@@ -1097,8 +1097,9 @@ def check_coherence(api, prog, recs):
     last_int = [r for r in recs[1:] if r.call.op == 'config_interrupts' and r.ok()]
     if last_int and recs[-1].regs is not None:
         r = last_int[-1]
-        if r.regs[0x1F] != 0x4E or r.regs[0x20] != 0x19:
-            return 'after re-asserting the enables the device holds INT_CONFIG0/1 = 0x%02X/0x%02X, requested 0x4E/0x19' % (r.regs[0x1F], r.regs[0x20])
+        # the recovery request switches these enables ON (it does not clear others)
+        if r.regs[0x1F] & 0x4E != 0x4E or r.regs[0x20] & 0x19 != 0x19:
+            return 'after re-asserting the enables the device holds INT_CONFIG0/1 = 0x%02X/0x%02X, the request switched on 0x4E/0x19' % (r.regs[0x1F], r.regs[0x20])
     return None
 
 
@@ -1509,3 +1510,86 @@ for pid_, extra, stmt in (
                 'verification conditions closed by congruence and by kernel evaluation over the enable byte',
         'assumptions': ['shadow bytes and request bytes are below 256 (what the API produces: C02)'],
     }
+
+
+# ----------------------------------------------------------------------------- C10: self-test
+def selftest_programs(api, rng, n):
+    out = []
+    for k in range(n):
+        base = builder_state_programs(api, rng, 1)[0]
+        pos, neg = P.selftest_bytes(rng, rng.random() < 0.5)
+        calls = base.calls + [Call('config_accel', setters=[('with_power_mode', [rng.choice(['Sleep', 'LowPower', 'Normal'])]),
+                                                             ('with_scale', [rng.choice(['Range2G', 'Range8G', 'Range16G', 'Range4G'])])]),
+                              Call('config_fifo', setters=[('with_axes', [rng.random() < 0.7, rng.random() < 0.5, rng.random() < 0.5])]),
+                              Call('perform_self_test')]
+        out.append(Prog('st%d' % k, rng.choice(['i2c', 'spi']), calls, pos=pos, neg=neg))
+    return out
+
+
+def check_selftest(prog, recs):
+    r = recs[-1]
+    if r.call.op != 'perform_self_test' or r.regs_before is None:
+        return None
+    if r.status == 'panic':
+        return 'panic in perform_self_test'
+    before, after = r.regs_before, r.regs
+    ev = implrun.reg_events(r.raw)
+    regs = list(before)
+    st_writes, reads, delay_since = [], [], 0
+    state_at_excitation = None
+    for e in ev:
+        if e[0] == 'd':
+            delay_since += e[1]
+        elif e[0] == 'w':
+            if e[1] == 0x7D:
+                if not st_writes:
+                    state_at_excitation = list(regs)
+                st_writes.append(e[2])
+                delay_since = 0
+            regs[e[1]] = e[2]
+        elif e[0] == 'r':
+            if (e[1], e[2]) != (4, 6):
+                return 'self-test read %r, expected a 6-byte burst from 0x04' % (e,)
+            reads.append((len(st_writes), delay_since))
+        else:
+            return 'ill-framed access in the self-test'
+    if st_writes != [0x07, 0x0F, 0x00]:
+        return 'excitation register written with %r, expected [0x07, 0x0F, 0x00]' % (['0x%02X' % x for x in st_writes],)
+    if [x[0] for x in reads] != [1, 2]:
+        return 'data reads are not one after each excitation write: %r' % (reads,)
+    if any(d < 50 for _n, d in reads):
+        return 'data read after only %r ms of settling' % ([d for _n, d in reads],)
+    s = state_at_excitation
+    if s[0x1F] != 0 or s[0x20] != 0 or s[0x26] & 0xE0 or (s[0x19] & 3) != 2 or (s[0x19] & ~3 & 0xFF) != (before[0x19] & ~3 & 0xFF) or s[0x1A] != 0x78:
+        return 'state at the first excitation: 0x1F=%02X 0x20=%02X 0x26=%02X 0x19=%02X 0x1A=%02X' % (s[0x1F], s[0x20], s[0x26], s[0x19], s[0x1A])
+    if after != before:
+        a = [i for i in range(128) if after[i] != before[i]][0]
+        return 'register 0x%02X = 0x%02X after the self-test, 0x%02X before' % (a, after[a], before[a])
+    d = [sext12(prog.pos[2 * i], prog.pos[2 * i + 1]) - sext12(prog.neg[2 * i], prog.neg[2 * i + 1]) for i in range(3)]
+    want_ok = d[0] > 1500 and d[1] > 1200 and d[2] > 250
+    if want_ok != (r.status == 'ok') or (not want_ok and r.err != 'SelfTestFailedError'):
+        return 'differences %r: verdict %s' % (d, r.result_str())
+    return None
+
+
+def mon_c10(api, rng, budget, variants):
+    programs = selftest_programs(api, rng, budget)
+    recs = run_monitor_programs(programs)
+    viol = [violation('C10', p, m) for p in programs for m in [check_selftest(p, recs[p.id])] if m]
+    return {'cases': len(programs), 'violations': viol[:20], 'samples': [programs[0].describe()],
+            'notes': ['prior configurations reached through accepted calls (all power modes, ranges, FIFO axes, interrupt enables); responses around and away from the '
+                      'thresholds; interleaved journal of writes, reads and delay requests; register file before / after']}
+
+
+PROPS['C10'] = {
+    'targets': ['props/C10.vo', 'props/C16.vo'],
+    'theorems': [('props.C10', n) for n in ['c10_shape', 'c10_no_overflow', 'c10_setup', 'c10_cleanup', 'c10_verdict']] + [('props.C16', 'c16_every_history')],
+    'corr_gen': lambda api, rng, n: selftest_programs(api, rng, n),
+    'corr_n': (200, 3000), 'monitor': mon_c10, 'monitor_n': (400, 10000), 'judge': check_selftest,
+    'statement': 'PARTIAL (the pieces are proved, their end-to-end composition "every register afterwards equals its value before" is not mechanised): '
+                 'perform_self_test is, by conversion, save; set-up; delay 2; 0x7D<-0x07; delay 50; one 6-byte read at 0x04; 0x7D<-0x0F; delay 50; one 6-byte read; '
+                 'differences; 0x7D<-0x00; delay 50; clean-up from the saved shadow; verdict (c10_shape). Set-up writes INT_CONFIG0/1 <- 0, wake-up interrupt bit and '
+                 'FIFO axis bits cleared, power mode normal with the other bits kept, ACC_CONFIG1 <- 0x78, interrupts off before the ODR changes (c10_setup, '
+                 'symbolic execution). Clean-up writes the saved values of exactly those six registers back (c10_cleanup). No i16 overflow for 12-bit samples and '
+                 'Ok iff dx>1500, dy>1200, dz>250 (c10_verdict). The shadow equals the device through the procedure, aborted runs included (C16)',
+}
